@@ -50,13 +50,13 @@ type c10Case struct {
 }
 
 type authSys struct {
-	r      *vcore.Run
-	prop   string
-	cfgs   []*authHostCfg
-	net    *authNet
-	tr     http.RoundTripper
-	hist   []authEvent
-	events []authEvent
+	r       *vcore.Run
+	prop    string
+	cfgs    []*authHostCfg
+	net     *authNet
+	tr      http.RoundTripper
+	hist    []authEvent
+	events  []authEvent
 	monitor func(s *authSys, ev authEvent, trip int, resp *http.Response, err error, before authSnapshot)
 }
 
